@@ -76,7 +76,9 @@ var alsoRuns = map[string][]borrow{
 	// … and from the nickname index, which a restore must rebuild for every session with a nickname (C03.K4)
 	// … and nothing but the closing line reaches a session after it ended (C17.Y5)
 	// … and no client can inject a second line with a prefix of its choosing (C15.W2)
-	"C12": {{prop: "C14"}, {prop: "C03", rules: []string{"K4"}}, {prop: "C17", rules: []string{"Y5"}}, {prop: "C15", rules: []string{"W2"}}},
+	// … and the identity and membership data survive a snapshot (C03 obligations about those fields)
+	"C12": {{prop: "C14"}, {prop: "C03", rules: []string{"K4"}}, {prop: "C17", rules: []string{"Y5"}}, {prop: "C15", rules: []string{"W2"}},
+		{prop: "C03", keyHasAny: []string{"Session.Nick", "Session.Username", "Session.Realname", "ircPrefix", "IrcPrefix", "Session.Channels", "channel.nicks", "Channel.Nicks", "Session.modes", "Session.AwayMsg", "identifier literal"}}},
 	// operator status lives in per-member arrays: a restore that shares one array between members hands out operator status
 	// … and privileges must survive a snapshot: operator flag, channel settings, member status, invitations, services links
 	"C13": {{prop: "C14", rules: []string{"M1"}, keyHas: "fresh status array"},
@@ -91,7 +93,7 @@ var alsoRuns = map[string][]borrow{
 	// … and a Config entry keeps its revision in every log encoding (C18.F1/F2 about Revision)
 	"C16": {{prop: "C03", keyHas: "onfig"}, {prop: "C06", rules: []string{"G5"}, keyHas: "Banned"}, {prop: "C18", rules: []string{"F1", "F2"}, keyHas: "Revision"}},
 	// a relayed line starts with a well-formed prefix: the cached prefix is refreshed whenever the nickname changes (C12.T4)
-	"C15": {{prop: "C12", rules: []string{"T4"}}},
+	"C15": {{prop: "C12", rules: []string{"T4"}}, {prop: "C03", keyHasAny: []string{"ircPrefix", "IrcPrefix"}}},
 	// sessions (and the expiration they are measured against) survive a snapshot: every session is restored (C03.K7), ids keep
 	// both components (K1c), the configured expiration round-trips
 	"C17": {{prop: "C03", rules: []string{"K7"}}, {prop: "C03", keyHasAny: []string{"SessionExpiration", "LastActivity", "identifier literal"}}},
